@@ -223,7 +223,7 @@ MethodsC14types == { MthP("POST", <<Prm("e", "p1.Hostile", "Body", "", "")>>, <<
                      MthP("GET", <<>>, <<"[]p1.Hostile", "error">>, <<>>, 0) }
 
 \* ---- C09: names and packages that stress the string-built import aliases (ParamN<name>, ResponseN<type>) ----------------------
-Cfg9(vt, ge, vr) == [engine |-> "gin", version |-> "3.0.0", enforce |-> FALSE, default |-> NoSec, schemes |-> <<"s1">>,
+Cfg9(vt, ge, vr) == [engine |-> "gin", version |-> "3.0.0", enforce |-> FALSE, default |-> NoSec, schemes |-> <<"s2", "s1">>,
                      validateTopLevelOnlyEnum |-> vt, generateEnumValidator |-> ge, validateResponsePayload |-> vr]
 CfgsC09 == { Cfg9(vt, ge, vr) : vt \in BOOLEAN, ge \in BOOLEAN, vr \in BOOLEAN }
 CtrlsC09 == { Ctl("p1", "f1", "AController", "/a", "A", <<>>), Ctl("p2", "f2", "BController", "/b", "B", <<>>), Ctl("p1", "f2", "CController", "/c", "C", <<>>) }
